@@ -114,7 +114,6 @@ const (
 	vC17K             = 20 // bucket size of the simulated closest-peers router
 	vC17Interval      = time.Hour
 	vC17MaxDelay      = 5 * time.Minute
-	vC17RetryTick     = 5 * time.Minute // provider.go retryInterval
 	vC17ProvideBound  = 30 * time.Minute
 	vC17CatchUpBound  = 30 * time.Minute
 	vC17SlackBase     = 2 * time.Minute
@@ -259,6 +258,7 @@ type vC17Send struct {
 	epoch int32
 	ok    bool
 	flaky bool // failed although the peer is healthy (transient error, see vC17Sim.flakyPct)
+	path  byte // 'P' sent by a provide batch, 'R' by a reprovide batch, 0 not determined (only determined for stopped keys)
 }
 
 // vC17Job identifies the sequence of RPCs one sender goroutine of the provider makes to one peer
@@ -438,6 +438,7 @@ func (s *vC17Sim) members() []int32 {
 
 // GetClosestPeers implements KadClosestPeersRouter.
 func (s *vC17Sim) GetClosestPeers(ctx context.Context, k string) ([]peer.ID, error) {
+	vC17PathOfCaller() // lets the goroutine of an individual provide inherit the kind of its batch (see there)
 	s.enter()
 	defer s.leave()
 	if d := s.lat(time.Duration(s.routerLat.Load()), k, 0); d > 0 {
@@ -536,7 +537,11 @@ func (s *vC17Sim) SendMessage(ctx context.Context, p peer.ID, m *pb.Message) err
 		}
 		s.flakyLast[job] = flaky
 	}
-	s.sends[ki] = append(s.sends[ki], vC17Send{t: now, peer: pi, epoch: int32(len(s.epochs) - 1), ok: ok, flaky: flaky})
+	var path byte
+	if m := s.model[ki]; m != nil && len(m.segs) > 0 && m.segs[len(m.segs)-1].stopped {
+		path = vC17PathOfCaller()
+	}
+	s.sends[ki] = append(s.sends[ki], vC17Send{t: now, peer: pi, epoch: int32(len(s.epochs) - 1), ok: ok, flaky: flaky, path: path})
 	if tr := os.Getenv("VERIF_C17_TRACEKEY"); tr != "" && strings.HasPrefix(vC17Bits(&s.pool.keys[ki].kad, 64), tr) { // debugging aid
 		fmt.Fprintf(os.Stderr, "TRACE +%v key %s (%x) -> peer %s ok=%v\n", now, vC17Bits(&s.pool.keys[ki].kad, 16), key[:6], vC17Bits(&s.pool.peers[pi].kad, 16), ok)
 	}
@@ -1164,46 +1169,47 @@ func (s *vC17Sim) evaluate(end time.Duration, windows bool) vC17Verdict {
 					}
 				}
 				v.stopJudged++
-				// "not re-advertised in LATER CYCLES". Work of the current cycle that was in flight when the stop arrived may
-				// still complete: a provide batch that fails puts its keys back (failedProvide) and is retried on the 5-minute
-				// retry tick, again and again while the region keeps failing - a chain of sends at most one retry interval
-				// (+ slack, + outages) apart that starts within the grace after the stop. Judged:
-				//  (a) a send later than the grace that does not continue such a chain (the periodic reprovide of a later
-				//      cycle, or anything else that picks the key up again), and
-				//  (b) any send later than a whole interval + allowed delay + slack after the stop: whatever its origin, that
-				//      is a later cycle.
+				// "not re-advertised in LATER CYCLES". Every send of a stopped key is attributed to the batch that made it
+				// (provide batch / reprovide batch, see vC17PathOfCaller):
+				//  - a reprovide batch loads its keys from the keystore when it starts: one that started before the stop may
+				//    still send within the grace; any later send by a reprovide batch IS the re-advertisement of a later cycle;
+				//  - a provide batch that was on the wire when the stop arrived may fail and be put back with the key list it
+				//    captured, and is retried for as long as its region keeps failing (finding #30). Retries inside the
+				//    current cycle are work of that cycle; later than a whole interval + allowed delay + slack after the stop
+				//    they are a later cycle whatever the origin. A reprovide batch that picks such a put-back key up from the
+				//    provide queue (DequeueMatching) is the same root cause.
 				grace := slack + 10*time.Minute
-				chainEnd := sg.e + grace // latest instant up to which a retry of in-flight work continues the chain
-				lastChain := sg.e
+				provideSendAfterStop := false
 				chained := 0
 				for _, sd := range s.sends[k] {
 					if sd.t <= sg.e || sd.t >= until {
 						continue
 					}
-					if fr := s.free(lastChain, sd.t); sd.t <= chainEnd || len(fr) != 1 || fr[0] != [2]time.Duration{lastChain, sd.t} { // an outage between two retries pauses the chain
-						lastChain = sd.t
-						if sd.t > sg.e+grace {
-							chained++
-						}
-						if sd.t+vC17RetryTick+slack > chainEnd {
-							chainEnd = sd.t + vC17RetryTick + slack
-						}
-						if sd.t <= sg.e+W {
-							continue
-						}
+					if sd.path == 'P' {
+						provideSendAfterStop = true
+					}
+					if sd.t <= sg.e+grace {
+						continue
+					}
+					if sd.path == 'P' && sd.t <= sg.e+W {
+						chained++
+						continue
 					}
 					var after []string
 					for _, x := range s.sends[k] {
 						if x.t > sg.e && x.t < until && len(after) < 40 {
-							after = append(after, fmt.Sprintf("+%v->%x(ok=%v)", x.t.Round(time.Second), s.pool.peers[x.peer].raw[:3], x.ok))
+							after = append(after, fmt.Sprintf("+%v->%x(%c ok=%v)", x.t.Round(time.Second), s.pool.peers[x.peer].raw[:3], map[byte]byte{'P': 'P', 'R': 'R', 0: '?'}[x.path], x.ok))
 						}
 					}
-					c.Logf("sends of the stopped key after the stop: %v", after)
-					sig, what := "stop/readvertised", "outside any retry of work in flight at the stop"
-					if sd.t > sg.e+W && chained > 0 {
-						sig, what = "stop/readvertised/retry-chain-into-later-cycle", fmt.Sprintf("more than interval + max delay + slack = %v after the stop, after %d chained retries", W, chained)
-					} else if sd.t > sg.e+W {
-						what = fmt.Sprintf("more than interval + max delay + slack = %v after the stop", W)
+					c.Logf("sends of the stopped key after the stop (P provide batch, R reprovide batch): %v", after)
+					sig, what := "stop/readvertised", "sent by a reprovide batch later than the grace after the stop"
+					switch {
+					case sd.path == 'P':
+						sig, what = "stop/readvertised/retry-chain-into-later-cycle", fmt.Sprintf("retry of a provide batch more than interval + max delay + slack = %v after the stop", W)
+					case provideSendAfterStop:
+						sig, what = "stop/readvertised/retry-chain-into-later-cycle", "sent by a reprovide batch that took the key from the provide queue, where a failed provide batch that was on the wire at the stop had put it back"
+					case sd.path == 0:
+						what = "batch of the sender not determined"
 					}
 					report(&v.stopFail, "stop", sig, "key %s… stopped at +%v, ADD_PROVIDER to peer %x at +%v (%s; slack %v)\n%s", vC17Bits(&s.pool.keys[k].kad, 16), sg.e.Round(time.Millisecond), s.pool.peers[sd.peer].raw[:6], sd.t.Round(time.Millisecond), what, slack, strings.Join(s.lateStacks, "\n"))
 					break
@@ -1491,6 +1497,33 @@ var (
 	vC17ReqRe   = regexp.MustCompile(`exploration required (\d+) requests`)
 )
 
+// vC17BatchPath: goroutine id of a running batch -> 'P' (batchProvide) or 'R' (batchReprovide).
+var vC17BatchPath sync.Map
+
+var vC17CreatedRe = regexp.MustCompile(`in goroutine (\d+)\n`)
+
+// vC17PathOfCaller tells which kind of batch the calling goroutine sends for: its own goroutine is the batch
+// (single-key individual provide) or it was started by the batch goroutine (sender workers, wg.Go of individual
+// provides).
+func vC17PathOfCaller() byte {
+	buf := make([]byte, 8192)
+	buf = buf[:runtime.Stack(buf, false)]
+	var id, parent uint64
+	fmt.Sscanf(string(buf), "goroutine %d ", &id)
+	if v, ok := vC17BatchPath.Load(id); ok {
+		return v.(byte)
+	}
+	if m := vC17CreatedRe.FindAllSubmatch(buf, -1); len(m) > 0 {
+		fmt.Sscanf(string(m[len(m)-1][1]), "%d", &parent)
+		if v, ok := vC17BatchPath.Load(parent); ok {
+			// inherited: the goroutines started by this one (sender workers of an individual provide) find it here
+			vC17BatchPath.Store(id, v)
+			return v.(byte)
+		}
+	}
+	return 0
+}
+
 func vC17Goid() uint64 {
 	var buf [64]byte
 	n := runtime.Stack(buf[:], false)
@@ -1506,6 +1539,9 @@ func (k vC17LogCore) Check(e zapcore.Entry, ce *zapcore.CheckedEntry) *zapcore.C
 	if e.Level >= zapcore.WarnLevel && strings.Contains(e.Message, "maxPrefixSearches") {
 		return ce.AddCore(e, k)
 	}
+	if e.Level == zapcore.InfoLevel && (strings.HasPrefix(e.Message, "provide starting for prefix") || strings.HasPrefix(e.Message, "reprovide starting for prefix")) {
+		return ce.AddCore(e, k)
+	}
 	if e.Level == zapcore.DebugLevel && (e.Message == "closestPeersToPrefix" || (strings.HasPrefix(e.Message, "region ") && strings.Contains(e.Message, "exploration required"))) {
 		return ce.AddCore(e, k)
 	}
@@ -1515,6 +1551,15 @@ func (k vC17LogCore) Check(e zapcore.Entry, ce *zapcore.CheckedEntry) *zapcore.C
 func (k vC17LogCore) Write(e zapcore.Entry, fields []zapcore.Field) error {
 	s := vC17CurSim.Load()
 	if s == nil {
+		return nil
+	}
+	if e.Level == zapcore.InfoLevel {
+		// batchProvide / batchReprovide announce themselves on their own goroutine: remember which kind of batch it runs
+		pth := byte('P')
+		if strings.HasPrefix(e.Message, "reprovide") {
+			pth = 'R'
+		}
+		vC17BatchPath.Store(vC17Goid(), pth)
 		return nil
 	}
 	if e.Level == zapcore.DebugLevel {
